@@ -111,6 +111,38 @@ def part_roundtrip(ctx, rng, work, events, meta, quick):
                     meta.append(dict(m0, what="load", rank=rk))
 
 
+def part_other_layout(ctx, rng, work, events, meta, quick):
+    """A checkpoint loaded into a grid that is in ANOTHER layout than the recorded one (extents equal, so that shapes cannot tell the
+    layouts apart): the load is either refused or yields the global field in the grid's own layout - never exchanged axes."""
+    from mpi4py import MPI
+    from harness import h5emu
+    h5emu.install()
+    shape = [6, 5, 6, 6]
+    k = 0
+    for lsave in STD:
+        for lload in STD:
+            if lload == lsave:
+                continue
+            for gl in ([1, 1], [2, 1]) if quick else ([1, 1], [2, 1], [2, 2]):
+                k += 1
+                folder = os.path.join(work, "ol%d" % k)
+                os.makedirs(folder)
+                ver = k % 7
+                rs = MPI.run(2, save_job, args=(shape, [2, 1], lsave, folder, 4, ver, float), policy="asc", seed=k, eager=False)
+                rl = MPI.run(int(np.prod(gl)), load_job, args=(shape, gl, lload, folder, 4, float), policy="asc", seed=k, eager=False) if rs.ok else None
+                m0 = {"part": "roundtrip", "shape": shape, "layout": lsave, "loaded_into": lload, "save_grid": [2, 1], "load_grid": gl, "dtype": "float64", "time": 4}
+                do = [d + 1 for d in STD[lload]]
+                if rl is not None and not rl.ok and "AssertionError" in rl.describe():
+                    ctx.count(("other-layout-refused", lsave, lload, tuple(gl)))
+                    continue
+                for rk in range(int(np.prod(gl))):
+                    v = rl.values[rk] if (rl is not None and rl.ok) else None
+                    events.append({"k": "load", "sh": shape, "do": do, "P": v["P"] if v else [1] * 4, "rc": v["rc"] if v else [0] * 4,
+                                   "block": v["block"] if v else [], "ok": bool(rl is not None and rl.ok), "ver": ver,
+                                   "err": (rl or rs).describe()})
+                    meta.append(dict(m0, what="load into another layout", rank=rk))
+
+
 def part_latest(ctx, rng, work, events, meta, quick):
     """Directories with several checkpoints of different digit counts: which one do the loaders pick?"""
     from mpi4py import MPI
@@ -311,7 +343,29 @@ def part_setupsave(ctx, work, events, meta):
                 os.makedirs(fold)
             if case.endswith("parameter file"):
                 setupSave(c_old, fold)
+                # the restart set-up on that folder, with an override - and again, plainly, after the file was rewritten: every call
+                # reads the parameter file as it is THEN
+                import warnings
+                from pygyro.initialisation.setups import setupFromFile
+                with warnings.catch_warnings():
+                    warnings.simplefilter("ignore")
+                    _, c1, _ = setupFromFile(fold, dt=c_old.dt * 2, allocateSaveMemory=False, layout="v_parallel")
+                    _, c2, _ = setupFromFile(fold, allocateSaveMemory=False, layout="v_parallel")
+                w1 = dict(const_values(c_old), dt=c_old.dt * 2)
+                for tag, cc, want in (("restart set-up with dt overridden", c1, w1), ("plain restart set-up after one with an override", c2, const_values(c_old))):
+                    back = const_values(cc)
+                    diff = [k for k in want if want[k] != back.get(k)]
+                    events.append({"k": "const", "ok": True, "same": not diff})
+                    meta.append({"part": "constants", "source": tag, "order": "setupFromFile", "diff": diff})
             ret = setupSave(c_new, fold)
+            if case.endswith("parameter file"):
+                with warnings.catch_warnings():
+                    warnings.simplefilter("ignore")
+                    _, c3, _ = setupFromFile(fold, allocateSaveMemory=False, layout="v_parallel")
+                back, want = const_values(c3), const_values(c_new)
+                diff = [k for k in want if want[k] != back.get(k)]
+                events.append({"k": "const", "ok": True, "same": not diff})
+                meta.append({"part": "constants", "source": "restart set-up after the parameter file was rewritten", "order": "setupFromFile", "diff": diff})
             back = const_values(get_constants(os.path.join(ret, "initParams.json")))
             want = const_values(c_new)
             diff = [k for k in want if want[k] != back.get(k)]
@@ -542,6 +596,7 @@ def run(ctx):
         part_latest(ctx, rng, work, events, meta, quick)
         part_constants(ctx, rng, work, events, meta, quick)
         part_setup_overrides(ctx, work, events, meta)
+        part_other_layout(ctx, rng, work, events, meta, quick)
         part_setupsave(ctx, work, events, meta)
         part_savefolder(ctx, work, events, meta, quick)
         part_driver(ctx, rng, work, events, meta, quick)
